@@ -17,7 +17,8 @@ where
 
     let bin_count = read_bin_count(reader)?;
 
-    let mut bins = IndexMap::with_capacity(bin_count);
+    // `bin_count` is untrusted: reserve a bounded amount.
+    let mut bins = IndexMap::with_capacity(bin_count.min(1 << 16));
     let mut metadata = None;
 
     for _ in 0..bin_count {
